@@ -442,7 +442,11 @@ func (r *Run) checkPendingDefers(st *State, fr *Frame, li *LoopInfo, what string
 		} else if n > 1 {
 			goal = False
 		}
-		name := fmt.Sprintf("%s/loop%d/%s:pending-%s", e.fnName[fr.Fn], li.Ordinal, what, cl.Words[2])
+		cellName := cl.Words[2]
+		if len(cl.Orig) > 2 {
+			cellName = cl.Orig[2]
+		}
+		name := fmt.Sprintf("%s/loop%d/%s:pending-%s", e.fnName[fr.Fn], li.Ordinal, what, cellName)
 		e.emitWith(st, name, "", nil, goal, fmt.Sprintf("deferred calls registered in the loop: %d pending iff %s", n, cl.Expr), e.framePos(fr), cl.Props, cl)
 	}
 }
